@@ -151,7 +151,7 @@ fn cmd_check(args: &[String]) -> i32 {
         }
     }
     // 2. seeded search
-    let templates = props::templates(&prop);
+    let templates = props::templates_for(&prop, &tier);
     let deadline = t0 + std::time::Duration::from_secs(if tier == "thorough" { 3000 } else { 600 });
     let res = batch(&prop, &templates, seed, runs, threads, &active, Some(deadline));
 
@@ -239,7 +239,9 @@ fn cmd_check(args: &[String]) -> i32 {
                 "serde_bounce": s.bounces,
                 "stale_state_merge": s.stale_merges,
                 "clock_jump": s.clock_jumps,
+                "stale_backup_restart_misuse": s.stale_restarts,
             },
+            "misuse_double_spends_seen_by_public_reads": s.misuse_clashes,
             "other_events": {
                 "deliveries": s.delivers, "state_merges": s.merges, "snapshots": s.snapshots, "anti_entropy_syncs": s.syncs,
                 "edits_from_held_reads": s.held_edits, "removes": s.removes, "edits_at_non_causally_closed_replicas": s.noncausal_gen,
